@@ -113,19 +113,37 @@ Expected(c) ==
     [] OTHER -> S2B("^[") \o Resolved(c, "a") \o S2B("]") \o S2B("[") \o Resolved(c, "b") \o S2B("1]")
                 \o S2B("[") \o Resolved(c, "b") \o S2B("2]") \o S2B("$")
 
+(* ---- stand-alone users: a template that imports blocks with use but extends nothing (and may define no block itself) ---- *)
+NSolo == 6
+SoloU == ("u" :> <<BlockS("h", <<Who("u"), Lbl("uh")>>)>>) @@ ("u2" :> <<BlockS("h2", <<Who("u2"), Lbl("u2h")>>)>>)
+SoloBody(k) ==
+  CASE k = 1 -> <<UseS(StrE("u"), << <<"h", "g">> >>), Lbl("^"), PrintS(CallE("block", <<StrE("g")>>)), Lbl("$")>>
+    [] k = 3 -> <<UseS(StrE("u"), <<>>), Lbl("^"), BlockS("own", <<Lbl("o")>>), PrintS(CallE("block", <<StrE("h")>>)), Lbl("$")>>
+    [] k = 4 -> <<UseS(StrE("u"), <<>>), UseS(StrE("u2"), <<>>), Lbl("^"), PrintS(CallE("block", <<StrE("h2")>>)), PrintS(CallE("block", <<StrE("h")>>)), Lbl("$")>>
+    [] OTHER -> <<UseS(StrE("u"), <<>>), Lbl("^"), PrintS(CallE("block", <<StrE("h")>>)), Lbl("$")>>
+SoloTpls(k) == SoloU @@ ("t1" :> SoloBody(k))
+               @@ (CASE k = 2 -> ("top" :> <<Lbl("["), IncludeS(StrE("t1"), NoE, FALSE), Lbl("]")>>)
+                     [] k = 5 -> ("top" :> <<Lbl("["), EmbedS(StrE("t1"), NoE, FALSE, <<>>), Lbl("]")>>)
+                     [] OTHER -> <<>>)
+SoloEntry(k) == IF k \in {2, 5} THEN "top" ELSE "t1"
+SoloExpected(k) == CASE k = 1 -> S2B("^uh$") [] k = 3 -> S2B("^ouh$") [] k = 4 -> S2B("^u2huh$")
+                     [] k \in {2, 5} -> S2B("[^uh$]") [] OTHER -> S2B("^uh$")
+IsSolo == v_idx >= Total
+
 Small == IF MaxL >= 4 THEN BaseOf(4) ELSE Total          \* every configuration with L <= 3
 Picked == (0..(Small - 1)) \cup {Small + SeedMod(Stride4) + Stride4 * m : m \in 0..((Total - Small - 1 - SeedMod(Stride4)) \div Stride4)}
+          \cup (Total..(Total + NSolo - 1))
 Init == GenInit(v_lvl, v_idx)
 Next == GenNext(v_lvl, v_idx, Picked, 64)
-Cur == Config(v_idx)
-Ref == Execute(Templates(Cur), "t1", Ctx)
-Out == v_lvl < 2 \/ Emit(RenderVec("C09-" \o ToString(v_idx), "inherit", Templates(Cur), "t1", Ctx,
+Cur == Config(IF IsSolo THEN 0 ELSE v_idx)
+Ref == IF IsSolo THEN Execute(SoloTpls(v_idx - Total), SoloEntry(v_idx - Total), Ctx) ELSE Execute(Templates(Cur), "t1", Ctx)
+Out == v_lvl < 2 \/ IF IsSolo THEN Emit(RenderVec("C09-" \o ToString(v_idx), "use-alone", SoloTpls(v_idx - Total), SoloEntry(v_idx - Total), Ctx, [L |-> 1, over |-> TRUE])) ELSE Emit(RenderVec("C09-" \o ToString(v_idx), "inherit", Templates(Cur), "t1", Ctx,
                                    [L |-> Cur.L, over |-> \E l \in 1..(Cur.L - 1) : Cur.spec[l].a # "abs" \/ Cur.spec[l].b # "abs"]))
 
 --------------------------------------------------------------------------
 (* every block is replaced by its most-derived override; parent() is the next definition; child content
    outside blocks is not rendered *)
-MostDerivedWins == v_lvl = 2 => LET R == Ref IN (R.status = "ok" /\ MainOut(R) = Expected(Cur))
+MostDerivedWins == v_lvl = 2 => LET R == Ref IN (R.status = "ok" /\ MainOut(R) = (IF IsSolo THEN SoloExpected(v_idx - Total) ELSE Expected(Cur)))
 (* a callback run inside a block sees the name of the template that defines the block *)
 NameInBlock == v_lvl = 2 =>
   LET lg == Ref.log IN \A q \in 1..Len(lg) : lg[q].e = "cb" => lg[q].args[1] = Str(S2B(lg[q].tname))
